@@ -47,6 +47,25 @@ def cases(seed, tier):
                     hid += 1
     for k in range(12):
         out.append({"group": "errors", "which": k, "seed": sub_seed(seed, "c11e", k)})
+    # distinct classes that share module and qualified name (factory-made / redefined classes) with different optional products,
+    # every order of first instantiation
+    capsets = [[], ["rmv"], ["mm"], ["rmv", "mm"], ["rmv", "mm", "rmm", "fullmatrix"], ["fullmatrix"]]
+    sid = 0
+    for a in range(len(capsets)):
+        for b in range(len(capsets)):
+            if a == b:
+                continue
+            for third in ([None] if tier == "quick" else [None] + list(range(len(capsets)))):
+                caps = [capsets[a], capsets[b]] + ([capsets[third]] if third is not None else [])
+                out.append({"group": "samename", "caps": caps, "seed": sub_seed(seed, "c11s", sid), "dtype": "complex128" if sid % 5 == 0 else "float64"})
+                sid += 1
+    # sums / differences whose matrix dimensions differ (also in the broadcast-looking way 1 vs n) must be rejected
+    eid = 0
+    for shp in ([(1, 4), (3, 4)], [(4, 1), (4, 3)], [(1, 1), (3, 3)], [(3, 4), (3, 5)], [(3, 4), (4, 4)], [(2, 1, 4), (3, 4)], [(3, 4), (2, 3, 1)],
+                [(2, 3, 4), (3, 3, 4)]):
+        for kinds in (["mv", "mv"], ["dense", "dense"], ["mv", "dense"], ["all", "mv_rmv"]):
+            out.append({"group": "addshape", "shapes": [list(shp[0]), list(shp[1])], "kinds": kinds, "seed": sub_seed(seed, "c11a", eid)})
+            eid += 1
     return out
 
 
@@ -400,8 +419,94 @@ def run_errors(desc, obs):
     obs.nontrivial = True
 
 
+def run_samename(desc, obs):
+    """classes made by a factory share __module__ and __qualname__: each must still behave according to the methods IT defines"""
+    tgen = torch.Generator().manual_seed(desc["seed"])
+    dtype = gen.rdtype(desc["dtype"])
+    n = 3
+    insts = []
+    for i, caps in enumerate(desc["caps"]):
+        counter = {}
+        cls = gen.fresh_linop_class(("mv",) + tuple(caps), counter)
+        cls.__name__ = "FactoryOp"
+        cls.__qualname__ = "make_operator.<locals>.FactoryOp"
+        cls.__module__ = "user_package.operators"
+        D = torch.randn(2, n, n, dtype=dtype, generator=tgen)
+        try:
+            insts.append((cls(D), D, set(caps), counter, i))
+        except Exception as e:
+            obs.exc_violation("samename:instantiate", e, caps=desc["caps"])
+    for op, D, have, counter, i in insts:
+        flags = {"rmv": op.is_rmv_implemented, "mm": op.is_mm_implemented, "rmm": op.is_rmm_implemented, "fullmatrix": op.is_fullmatrix_implemented}
+        for f, val in flags.items():
+            obs.check(bool(val) == (f in have), "samename:flag:%s" % f,
+                      "class #%d (%s _%s) reports is_%s_implemented=%s after same-named classes %s were instantiated"
+                      % (i, "defines" if f in have else "does not define", f, f, val, desc["caps"]))
+        x = torch.randn(2, n, dtype=dtype, generator=tgen)
+        X = torch.randn(2, n, 2, dtype=dtype, generator=tgen)
+        DH = D.transpose(-2, -1).conj()
+        tol = 1e-10
+        for name, fn, ref in (("mv", lambda: op.mv(x), torch.matmul(D, x.unsqueeze(-1)).squeeze(-1)), ("mm", lambda: op.mm(X), torch.matmul(D, X)),
+                              ("rmv", lambda: op.rmv(x), torch.matmul(DH, x.unsqueeze(-1)).squeeze(-1)), ("rmm", lambda: op.rmm(X), torch.matmul(DH, X)),
+                              ("fullmatrix", lambda: op.fullmatrix(), D)):
+            before = dict(counter)
+            try:
+                out = fn()
+            except Exception as e:
+                obs.exc_violation("samename:%s" % name, e, caps=desc["caps"], index=i)
+                continue
+            obs.check(out.shape == ref.shape and float((out - ref).abs().max()) <= tol, "samename:%s:value" % name,
+                      "%s of class #%d differs from its matrix after same-named classes %s" % (name, i, desc["caps"]))
+            if name in have:
+                obs.check(counter.get(name, 0) > before.get(name, 0), "samename:%s:own_method_ignored" % name,
+                          "class #%d defines _%s but %s did not call it (same-named classes %s)" % (i, name, name, desc["caps"]))
+            obs.count("products_compared")
+    obs.nontrivial = len(insts) >= 2
+
+
+def run_addshape(desc, obs):
+    tgen = torch.Generator().manual_seed(desc["seed"])
+    s1, s2 = (tuple(x) for x in desc["shapes"])
+    for sign in ("+", "-"):
+        A = gen.leaf_operator(desc["kinds"][0], torch.randn(*s1, dtype=torch.float64, generator=tgen))
+        B = gen.leaf_operator(desc["kinds"][1], torch.randn(*s2, dtype=torch.float64, generator=tgen))
+        what = "%s:%s%s%s" % ("x".join(desc["kinds"]), "x".join(map(str, s1)), sign, "x".join(map(str, s2)))
+        try:
+            C = (A + B) if sign == "+" else (A - B)
+        except (RuntimeError, ValueError, TypeError, AssertionError):
+            obs.count("rejections_observed")
+            continue
+        except Exception as e:
+            obs.violation("addshape:wrong_exception", "%s raised %s" % (what, type(e).__name__))
+            continue
+        # the combination was accepted at construction: the statement only asks for *an error*, so a rejection on first use also counts;
+        # what must not happen is that any product silently returns values
+        produced = []
+        for pname, fn in (("mv", lambda: C.mv(torch.ones(C.shape[-1], dtype=torch.float64))), ("fullmatrix", lambda: C.fullmatrix()),
+                          ("rmv", lambda: C.rmv(torch.ones(C.shape[-2], dtype=torch.float64)))):
+            try:
+                fn()
+                produced.append(pname)
+            except Exception:
+                pass
+        if not produced:
+            obs.count("rejected_on_first_use")
+            continue
+        obs.violation("addshape:accepted:%s" % ("matrixdims" if s1[-2:] != s2[-2:] else "batch"),
+                      "operators of shapes %s %s %s were combined into an operator of shape %s and %s returned values"
+                      % (s1, sign, s2, tuple(C.shape), produced), kinds=desc["kinds"])
+    obs.counters["assertions_evaluated"] += 2
+    obs.nontrivial = True
+
+
 def run_case(desc):
     obs = Obs(desc)
+    if desc["group"] == "samename":
+        run_samename(desc, obs)
+        return obs.result()
+    if desc["group"] == "addshape":
+        run_addshape(desc, obs)
+        return obs.result()
     if desc["group"] == "tree":
         run_tree(desc, obs)
     elif desc["group"] == "history":
